@@ -951,6 +951,23 @@ class Unit:
             if any(t.kind in CODE for t in cur): args.append(cur)
             if argno > len(args):
                 raise AnchorLost("%s: arm Request::%s: call of `%s` has %d argument(s), closure argument %d" % (rel, variant, gname, len(args), argno))
+            lift = next((o.split("=", 1)[1] for o in opts if o.startswith("lift=")), None)
+            if lift is not None:
+                # R10b (lambda lifting): the closure literal handed to the guard becomes a function of its own - `op_<variant>(<arm bindings>, <closure parameters, typed by lift=>, dbs, client)`
+                # with the closure body verbatim; the arm with the closure abstracted is verified separately (guard usage), this is WHAT the operation does once allowed
+                ctoks = [t for t in args[argno - 1] if t.kind in CODE]
+                ci0 = 0
+                while ci0 < len(ctoks) and ctoks[ci0].text == "&": ci0 += 1
+                if ci0 >= len(ctoks) or ctoks[ci0].text != "|":
+                    raise AnchorLost("%s: arm Request::%s: argument %d of `%s` is not a closure literal" % (rel, variant, argno, gname))
+                cj = ci0 + 1
+                while cj < len(ctoks) and ctoks[cj].text != "|": cj += 1
+                full = toks_text(args[argno - 1])
+                # body = text after the second `|`
+                bar2 = [t for t in lex(full) if t.kind == "p" and t.text == "|"][1]
+                cbody = full[bar2.end:].strip()
+                self._lifted = dict(body=cbody, cparams=lift, gname=gname)
+                break
             dropped = re.sub(r"\s+", " ", toks_text(args[argno - 1]))[:300]
             self.dropped.append("arm Request::%s (%s:%d): R10 closure literal handed to `%s` replaced by the abstract closure `opp`; dropped text: %s" % (
                 variant, rel, src_line, gname, dropped))
@@ -960,7 +977,15 @@ class Unit:
         closure_arg = 1 if guard_list else 0
         if guard is None and guard_list:
             guard = guard_list[0][0]
-        new_expr = rewrite_builtin(new_expr, self.counts, mutable=("mutclient" in opts))
+        lifted = getattr(self, "_lifted", None)
+        self._lifted = None
+        if lifted:
+            new_expr = lifted["body"] if lifted["body"].lstrip().startswith("{") else "{ " + lifted["body"] + " }"
+            closure_arg = 0
+            self.dropped.append("arm Request::%s (%s:%d): R10b the closure handed to `%s` is lifted to the function `op_%s`: its parameters `%s` are typed by the contract file, what it captures "
+                                "(the arm's bindings, dbs, client) becomes parameters" % (variant, rel, src_line, lifted["gname"], variant.lower(), lifted["cparams"]))
+            self.counts.add("R10b.closure-lifted-to-function")
+        new_expr = rewrite_builtin(new_expr, self.counts, mutable=("mutclient" in opts or bool(lifted)))
         if "strfrom" in opts:
             new_expr = apply_literal_rewrite(new_expr, "String::from(", "shim_string_from(", -1, self.counts, name_hint(variant))
         for lno, ln in block:
@@ -1006,7 +1031,10 @@ class Unit:
         name = "arm_" + re.sub(r"(?<!^)(?=[A-Z])", "_", variant).lower()
         xparams = next((o.split("=", 1)[1] for o in opts if o.startswith("params=")), None)
         xret = next((o.split("=", 1)[1] for o in opts if o.startswith("ret=")), None)
-        if xparams is not None:
+        if lifted:
+            name = "op_" + re.sub(r"(?<!^)(?=[A-Z])", "_", variant).lower()
+            sig = "fn %s(%s%s%s, dbs: &Arc<Databases>, client: &Client) -> (r: Response)" % (name, ", ".join(params), ", " if params else "", lifted["cparams"])
+        elif xparams is not None:
             # an arm of another dispatcher (e.g. the match of the replication thread): the locals of the enclosing function it uses become the parameters named here
             sig = "fn %s(%s%s%s) -> (r: %s)" % (name, ", ".join(params), ", " if params else "", xparams, xret or "Response")
             self.dropped.append("arm Request::%s of %s (%s:%d): R10 the enclosing function's locals `%s` become parameters" % (variant, fn_name, rel, src_line, xparams))
